@@ -227,22 +227,68 @@ def d2_prior(ctx, rule='C19-D2'):
 def d3_flags(ctx, obs):
     rule = 'C19-D3'
     f = obs.func('Obs.__format__')
-    st = [s for s in statements(f) if isinstance(s, ast.Assign) and unparse(s.targets[0]) == 'my_str']
-    calls = [s for s in st if isinstance(s.value, ast.Call) and call_name(s.value) == '_format_uncertainty']
-    rest = [s for s in st if s not in calls]
-    ok = len(calls) == 1 and all(isinstance(s.value, ast.BinOp) and isinstance(s.value.op, ast.Add) and unparse(s.value.right) == 'my_str' and unparse(s.value.left) == 'char' for s in rest)
-    ctx.check(rule, 'obs.py:Obs.__format__#prefix-only', ok, 'flags only prepend one character to the formatted string', 'my_str reassigned by %s' % [unparse(s.value) for s in rest])
-    if calls:
-        c = calls[0].value
-        okc = [unparse(a) for a in c.args] == ['self.value', 'self._dvalue'] and unparse(kwarg(c, 'significance')) == 'significance'
-        ctx.check(rule, 'obs.py:Obs.__format__#arguments', okc, 'formats (value, dvalue) with the requested significance', 'call is %s' % unparse(c))
-    for s in rest:
-        g = [unparse(t) for t, pol in guards_of(obs, s, stop=f) if pol]
-        okg = g == ['format_type.startswith(char)', "my_str[0] != '-'"]
-        ctx.check(rule, 'obs.py:Obs.__format__#flag-guard', okg, 'character added only when requested and the number is not negative', 'guards %s' % g)
-    sg = [s for s in statements(f) if isinstance(s, ast.Assign) and unparse(s.targets[0]) == 'significance']
-    vals = sorted(unparse(s.value) for s in sg)
-    ctx.check(rule, 'obs.py:Obs.__format__#significance', vals == ['2', "int(float(format_type.replace('+', '').replace('-', '')))"], 'default 2 significant digits, else the number in the spec', 'significance from %s' % vals)
+    # Obs.__format__ is string handling around one call of _format_uncertainty: the extracted method is evaluated with a recording
+    # stub for that call on the format specifications of the quantifier ('' / '+' / ' ' flags, significance 1..6) and both signs
+    import copy as _copy
+    key = 'obs.py:Obs.__format__'
+    bad_nodes = [type(x).__name__ for x in walk(f) if isinstance(x, (ast.Import, ast.ImportFrom, ast.Global, ast.Nonlocal, ast.While, ast.With, ast.Try, ast.Lambda))]
+    if bad_nodes or len(f.args.args) != 2:
+        ctx.unrec(rule, key, 'not plain string handling (%s): not evaluated' % bad_nodes, obs.loc(f))
+    else:
+        calls = []
+
+        def stub(*a, **k_):
+            calls.append((a, k_))
+            v = a[0] if a else k_.get('value')
+            return '-12.3(45)' if v < 0 else '12.3(45)'
+
+        class _O:
+            pass
+        safe = {'int': int, 'float': float, 'str': str, 'len': len, 'ValueError': ValueError, 'TypeError': TypeError, 'isinstance': isinstance, 'abs': abs, 'range': range, 'bool': bool,
+                'any': any, 'all': all, 'tuple': tuple, 'list': list, 'min': min, 'max': max}
+        g = _copy.deepcopy(f)
+        g.decorator_list = []
+        wrong = []
+        count = 0
+        try:
+            ns = {'__builtins__': safe, '_format_uncertainty': stub}
+            exec(compile(ast.fix_missing_locations(ast.Module(body=[g], type_ignores=[])), '<format>', 'exec'), ns)
+            fn = ns[f.name]
+            for spec in [''] + [fl + sg for fl in ('', '+', ' ') for sg in ('', '1', '2', '3', '4', '5', '6')]:
+                for val in (1.5, -1.5, 0.0):
+                    if spec in ('+', ' '):
+                        continue        # a flag without a number of digits is not a documented specification
+                    o = _O()
+                    o.value, o._dvalue, o.dvalue = val, 0.25, 0.25
+                    del calls[:]
+                    count += 1
+                    try:
+                        got = fn(o, spec)
+                    except NameError as ex_:
+                        raise Unrecognised('cannot evaluate __format__(%r): %r' % (spec, ex_))
+                    except Exception as ex_:
+                        wrong.append((spec, val, 'raised %r' % ex_, None))
+                        continue
+                    marker = '-12.3(45)' if val < 0 else '12.3(45)'
+                    flag = spec[:1] if spec[:1] in ('+', ' ') else ''
+                    want = (flag if marker[0] != '-' else '') + marker      # the printed string decides, not the sign of the value (0.0)
+                    sig = int(spec.lstrip('+ ')) if spec.lstrip('+ ') else 2
+                    if len(calls) != 1:
+                        wrong.append((spec, val, '%d calls of _format_uncertainty' % len(calls), None))
+                        continue
+                    a_, k_ = calls[0]
+                    args_ = dict(zip(('value', 'dvalue', 'significance'), a_))
+                    args_.update(k_)
+                    if (args_.get('value'), args_.get('dvalue'), args_.get('significance', 2)) != (val, 0.25, sig):
+                        wrong.append((spec, val, 'formats %r' % (args_,), (val, 0.25, sig)))
+                    elif got != want:
+                        wrong.append((spec, val, got, want))
+            ctx.check(rule, key + '#flags-and-significance', not wrong, 'value and dvalue are formatted with the requested number of digits; a flag only prepends its character to a non-negative number (%d specifications evaluated)' % count,
+                      'format(obs, %r) for the value %s gives %s, expected %s' % wrong[0] if wrong else '', obs.loc(f))
+        except Unrecognised as ex_:
+            ctx.unrec(rule, key, str(ex_), obs.loc(f))
+        except Exception as ex_:
+            ctx.unrec(rule, key, 'cannot evaluate the method: %r' % ex_, obs.loc(f))
     fs = obs.func('Obs.__str__')
     r = [s for s in statements(fs) if isinstance(s, ast.Return)]
     ctx.check(rule, 'obs.py:Obs.__str__', len(r) == 1 and unparse(r[0].value) == '_format_uncertainty(self.value, self._dvalue)', 'str = value(error) with the default significance', 'str returns %s' % [unparse(x.value) for x in r])
